@@ -596,3 +596,100 @@ def c18_mem(descs, L):
             if c_ > a:
                 out.append(viol("c18-heap-" + d[0].lower(), "%s: live heap bytes owned grow with the stream: %d at %d updates, %d at %d, %d at %d" % (d_sexpr(d), a, L, b, 2 * L, c_, 4 * L), [], desc=d_sexpr(d), bytes=[a, b, c_]))
     return out
+
+# ---------------------------------------------------------------------------------- C09
+def c09(longs, pairs, w3, U):
+    out = []
+    def vals(c):
+        r = []
+        for b in c.obs:
+            if b.kind == "S":
+                r.append(f64_of_bits(b.val))
+            elif b.kind == "E":
+                r.append(None)
+        return r
+    for c in longs:
+        name = c.desc[0]
+        vs = vals(c)
+        if c.ctor_ok is False or None in vs or any(not math.isfinite(v) for v in vs):
+            out.append(viol("c09-nonfinite-" + name.lower(), "%s: panic or non-finite output on a bounded stream of %d values" % (d_sexpr(c.desc), len(c.ops)), [], desc=d_sexpr(c.desc)))
+            continue
+        if not vs:
+            continue
+        bound = {"TrendFlex": 5.0 + 1e-9, "ReFlex": 50.0, "Lrsi": 1.0 + 1e-9, "Eft": math.log(199) + 1e-9}.get(name, 20.0 * 5 * U)
+        worst = max(abs(v) for v in vs)
+        if worst > bound:
+            out.append(viol("c09-unbounded-" + name.lower(), "%s: |output| reaches %g on inputs bounded by %d (bound %g)" % (d_sexpr(c.desc), worst, 5 * U, bound), [], desc=d_sexpr(c.desc)))
+            continue
+        h = len(vs) // 2
+        if h >= 4 and max(abs(v) for v in vs[h:]) > 4 * max(1e-9, max(abs(v) for v in vs[:h])) and max(abs(v) for v in vs[h:]) > 10 * U:
+            out.append(viol("c09-growing-" + name.lower(), "%s: output magnitude keeps growing with the stream length" % d_sexpr(c.desc), [], desc=d_sexpr(c.desc)))
+    def lastv(c):
+        b = c.obs[-1]
+        return f64_of_bits(b.val) if b.kind == "S" else None
+    for (c1, c2) in pairs:
+        a, b = lastv(c1), lastv(c2)
+        name = c1.desc[0]
+        if a is None or b is None:
+            if c1.obs[-1].kind == "E" or c2.obs[-1].kind == "E":
+                out.append(viol("c09-nonfinite-" + name.lower(), "%s: failure on a bounded stream" % d_sexpr(c1.desc), [], desc=d_sexpr(c1.desc)))
+            continue
+        scale_ = max(1.0, abs(a), abs(b))
+        if abs(a - b) > 1e-6 * scale_:
+            out.append(viol("c09-fading-" + name.lower(), "%s: two streams with a common tail of %d values still differ: %r vs %r" % (d_sexpr(c1.desc), len(c1.ops) - 40, a, b), [], desc=d_sexpr(c1.desc)))
+    a, b = lastv(w3[0]), lastv(w3[1])
+    if a is not None and b is not None and abs(a - b) > 1e-6:
+        out.append(viol("W3-lrsi-fading-constant-tail", "LaguerreRSI(16): prefixes 10..14 and 2,1 followed by 4000 x the constant 5 give %r and %r" % (a, b), [], desc="(Lrsi 16 Echo)"))
+    return out
+
+# ---------------------------------------------------------------------------------- C16
+VALUE_LIKE = {"Sma", "Cumulative", "Alma", "Welford", "WelfordMean", "Vst", "Ema", "Min", "Max", "WRolling", "WRollingMean", "Cyber"}
+def c16(groups, tol=None):
+    out = []
+    for (kind, cf, ce, flatv) in groups:
+        name = cf.desc[0]
+        n = cf.desc[1] if len(cf.desc) > 1 and isinstance(cf.desc[1], int) else 1
+        xs = [abs(o[2]) for o in cf.ops if o[0] in ("u", "q")]
+        mag = max(xs) if xs else F(1)
+        if name == "Cumulative":
+            mag = mag * n
+        width = {"Rsi": F(100), "Roc": None}.get(name, F(2))
+        scale_ = mag if name in VALUE_LIKE else width
+        if name == "Roc":
+            scale_ = F(100)
+        if name == "Vst":
+            scale_ = mag          # value-like when the window is flat; otherwise x/std, judged relative to its own size below
+        t = tol if tol is not None else (F(1, 10 ** 6) if kind == "long" or kind == "f32" else F(1, 10 ** 4))
+        worst = None
+        pos = [i for i, o in enumerate(cf.ops) if o[0] in ("u", "l")]
+        if kind == "flat":
+            pos = pos[-1:]
+        for i in pos:
+            bf, be = cf.obs[i], ce.obs[i]
+            if bf.kind == "-" or be.kind == "-":
+                continue
+            if be.kind != "S":
+                continue
+            if bf.kind != "S":
+                out.append(viol("c16-%s-%s%s" % ("flat" if kind == "flat" else "drift", name.lower(), "-f32" if kind == "f32" else ""),
+                                "%s: floating-point run fails (%s) where the exact run reports %s" % (d_sexpr(cf.desc), bf.kind, float(be.val)), [cf] if len(cf.ops) < 120 else [], desc=d_sexpr(cf.desc)))
+                worst = None
+                break
+            x = F(f64_of_bits(bf.val)) if math.isfinite(f64_of_bits(bf.val)) else None
+            if x is None:
+                out.append(viol("c16-%s-%s" % ("flat" if kind == "flat" else "drift", name.lower()), "%s: non-finite floating-point output where the exact run reports %s" % (d_sexpr(cf.desc), float(be.val)), [cf] if len(cf.ops) < 120 else [], desc=d_sexpr(cf.desc)))
+                worst = None
+                break
+            sc = scale_
+            if name in ("Vst", "Vsct") and kind != "flat":
+                sc = max(F(1), abs(be.val))
+            err = abs(x - be.val) / sc
+            if worst is None or err > worst[0]:
+                worst = (err, i, x, be.val)
+        if worst is not None and worst[0] > t:
+            out.append(viol("c16-%s-%s%s" % ("flat" if kind == "flat" else "drift", name.lower(), "-f32" if kind == "f32" else ""),
+                            "%s: floating-point output %.12g vs exact %.12g at operation %d: off by %.3g x scale (tolerance %.0e)%s"
+                            % (d_sexpr(cf.desc), float(worst[2]), float(worst[3]), worst[1] + 1, float(worst[0]), float(t),
+                               " after a volatile stretch followed by %s identical values" % cf.meta.get("flat_len") if kind == "flat" else ""),
+                            [cf] if len(cf.ops) < 120 else [], desc=d_sexpr(cf.desc)))
+    return out
